@@ -100,6 +100,24 @@ def check_group_logic(chk, ix):
     chk.require_instances("A1", 100)
 
 
+def _composite(ix, st, members, label):
+    """a CompositeActiveTagValueProvider built by its own constructor (so that whatever state it keeps is initialised), then given the
+    member providers of the case"""
+    from .abscall import construct as _construct
+    cc = ix.cls("behave.tag_matcher:CompositeActiveTagValueProvider")
+    it0 = Interp(ix, name="CompositeActiveTagValueProvider()")
+    it0.list_cap = 100
+    outs = _construct(it0, st, ClassVal(cc), [st.alloc(HObj("list", kind="list", items=list(members)))], {}, None)
+    if len(outs) != 1 or outs[0][1] != "val" or outs[0][0] is not st:
+        raise AnalysisError("CompositeActiveTagValueProvider(...) not evaluable: %r" % ([(k, v) for _, k, v in outs][:2],))
+    ref = outs[0][2]
+    st.wobj(ref).label = label
+    f = st.obj(ref).fields
+    if not (isinstance(f.get("data"), Ref) and isinstance(f.get("value_providers"), Ref)):
+        raise AnalysisError("CompositeActiveTagValueProvider.__init__ leaves no data / value_providers")
+    return ref
+
+
 def check_unknown_category(chk, ix):
     chk.rule("A2", WHAT["A2"])
     mc = ix.cls("behave.tag_matcher:ActiveTagMatcher")
@@ -117,8 +135,7 @@ def check_unknown_category(chk, ix):
             prov = st.alloc(HObj(pc, {"data": data}, label=pname))
         else:
             inner = data if pname.endswith("(dict)") else st.alloc(HObj(pc, {"data": data}, label="inner provider"))
-            prov = st.alloc(HObj(cc, {"data": st.alloc(HObj("dict", kind="dict", items=[])),
-                                      "value_providers": st.alloc(HObj("list", kind="list", items=[inner]))}, label=pname))
+            prov = _composite(ix, st, [inner], pname)
         m = _matcher(ix, st, prov, ignore_unknown=True)
         pairs = st.alloc(HObj("list", kind="list", items=[_pair(st, "use", False, "unknowncat")]))
         outs = it.call_function(st, f, ["unknowncat", pairs], {}, None, self_val=m)
@@ -308,8 +325,7 @@ def check_negation_and_values(chk, ix):
                 members = [inner]
                 if "second" in pname:
                     members = [st.alloc(HObj("dict", kind="dict", items=[("other", 1)], label="first provider")), inner]
-                prov = st.alloc(HObj(cc, {"data": st.alloc(HObj("dict", kind="dict", items=[])),
-                                          "value_providers": st.alloc(HObj("list", kind="list", items=members))}, label=pname))
+                prov = _composite(ix, st, members, pname)
             meth = st.obj(prov).cls.lookup("get" if via == "get" else "__getitem__")
             reads = []
             cur = st
@@ -328,6 +344,43 @@ def check_negation_and_values(chk, ix):
                 _fail(chk, "A7", meth, "%s via %s: reads %r" % (pname, via, reads),
                       "three successive lookups of a category with a lazy (callable) value through %s give %r instead of three fresh "
                       "evaluations: the decision is taken against a stale value" % (pname, reads), cur.path)
+
+
+def check_provider_learns_later(chk, ix):
+    """A7 (history): a category asked for while no provider knows it, then added to a provider (before_all / a fixture sets it), then
+    asked for again: the second answer is the new value, through every provider shape."""
+    chk.rule("A7", WHAT["A7"])
+    pc = ix.cls("behave.tag_matcher:ActiveTagValueProvider")
+    for pname in ("ActiveTagValueProvider", "CompositeActiveTagValueProvider(dict)", "CompositeActiveTagValueProvider(provider)"):
+        st = State()
+        st.frames = []
+        it = Interp(ix, name="provider learns a category later")
+        it.list_cap = 100
+        data = st.alloc(HObj("dict", kind="dict", items=[("plain", "x")], label="provider data"))
+        if pname == "ActiveTagValueProvider":
+            prov = st.alloc(HObj(pc, {"data": data}, label=pname))
+        else:
+            inner = data if pname.endswith("(dict)") else st.alloc(HObj(pc, {"data": data}, label="inner provider"))
+            prov = _composite(ix, st, [inner], pname)
+        meth = st.obj(prov).cls.lookup("get")
+        outs = it.call_function(st, meth, ["os", "DEFAULT"], {}, None, self_val=prov)
+        if len(outs) != 1 or outs[0][1] != "val":
+            raise AnalysisError("provider %s.get not evaluable: %r" % (pname, [(k, v) for _, k, v in outs][:2]))
+        cur, first = outs[0][0], outs[0][2]
+        w = cur.wobj(data)
+        w.items = list(w.items) + [("os", "linux")]         # the project learns its os now
+        outs = it.call_function(cur, meth, ["os", "DEFAULT"], {}, None, self_val=prov)
+        chk.absorb(it)
+        chk.instance("A7")
+        if len(outs) != 1 or outs[0][1] != "val":
+            raise AnalysisError("provider %s.get not evaluable: %r" % (pname, [(k, v) for _, k, v in outs][:2]))
+        second = outs[0][2]
+        if first == "DEFAULT" and second == "linux":
+            chk.ok("A7", {"provider": pname, "history": "asked while unknown, learned, asked again", "answers": [first, second]}, nontrivial_key=("later", pname))
+        else:
+            _fail(chk, "A7", meth, "%s: unknown, learned, asked again -> %r, %r" % (pname, first, second),
+                  "a category asked for through %s while unknown (answer %r), then set in the provider's data, is answered %r at the next lookup "
+                  "(expected 'linux'): an earlier 'unknown' is remembered and the active tags of that category never exclude" % (pname, first, second))
 
 
 def check_grouping(chk, ix):
@@ -501,8 +554,7 @@ def check_provider_known_unknown(chk, ix):
             prov = st.alloc(HObj(pc, {"data": data}, label=pname))
         else:
             inner = data if pname.endswith("(dict)") else st.alloc(HObj(pc, {"data": data}, label="inner provider"))
-            prov = st.alloc(HObj(cc, {"data": st.alloc(HObj("dict", kind="dict", items=[])),
-                                      "value_providers": st.alloc(HObj("list", kind="list", items=[inner]))}, label=pname))
+            prov = _composite(ix, st, [inner], pname)
         meth = st.obj(prov).cls.lookup("get")
         script = [("nocat", None, None), ("nocat", MARK, MARK), ("browser", MARK, None), ("os", MARK, "linux"), ("nocat", "other-default", "other-default"),
                   ("nocat", MARK, MARK), ("browser", MARK, None)]
